@@ -22,27 +22,6 @@ Definition vdec_ok (fs : fsys) (pc : list vinstr) : Prop :=
 
 Definition main_pc (p : proc) : list instr := pc_get T_MAIN p.
 
-Record InvM (s : sys) : Prop := mkInvM {
-  m_ok : frags_ok (all_frags (f_md (s_fs s)));
-  m_nil : md_live (f_md (s_fs s)) = [] -> md_frags (f_md (s_fs s)) = [];
-  m_sorted : StronglySorted N.lt (ids (f_md (s_fs s)));
-  m_ghost : forall fr, In fr (md_frags (f_md (s_fs s))) -> In fr (s_frags s);
-  m_handle : forall p, s_p s = Some p -> ~ In IManiOpen (main_pc p) ->
-             p_ms p = frag_state (md_live (f_md (s_fs s))) /\
-             p_next p = max_id (md_frags (f_md (s_fs s))) + 1;
-  m_open1 : forall p, s_p s = Some p -> ~ In IManiOpen (tl (main_pc p));
-  m_open2 : forall p, s_p s = Some p -> forall a r t b, main_pc p = a ++ INewLog r t :: b -> b = [];
-  m_ready : forall p, s_p s = Some p -> p_ready p = true -> main_pc p = [];
-  m_notready : forall p, s_p s = Some p -> p_ready p = false ->
-               forall t, t <> T_MAIN -> pc_get t p = [];
-  m_vsorted : forall vp, s_v s = Some vp -> StronglySorted N.le (vids (vp_pc vp));
-  m_vlow : forall vp, s_v s = Some vp -> forall n m, In n (vids (vp_pc vp)) ->
-           In m (ids (f_md (s_fs s))) -> m < n -> In m (vids (vp_pc vp));
-  m_vmax : forall vp, s_v s = Some vp -> forall n, In n (vids (vp_pc vp)) ->
-           n < max_id (md_frags (f_md (s_fs s)));
-  m_vdec : forall vp, s_v s = Some vp -> vdec_ok (s_fs s) (vp_pc vp)
-}.
-
 (* ---------------------------------------------------------------- sorted ids *)
 Lemma max_id_nil : max_id [] = 0.
 Proof. reflexivity. Qed.
@@ -187,6 +166,30 @@ Proof.
   - injection E as <- E2. destruct (H a m b E2) as [H1|[H1|H1]]; auto. right. right. now right.
 Qed.
 
+Lemma vdec_ok_insert_gen fs n rest : vdec_ok fs rest -> forall pre done,
+  (forall k, ~ In (VDecide k) pre) ->
+  (vs_m (f_vs fs) <> Some n \/ ~ In n (ids (f_md fs)) \/ In (VUnlinkFrag n) (done ++ pre)) ->
+  forall a k b, pre ++ VDecide n :: rest = a ++ VDecide k :: b ->
+    vs_m (f_vs fs) <> Some k \/ ~ In k (ids (f_md fs)) \/ In (VUnlinkFrag k) (done ++ a).
+Proof.
+  intros Hrest. induction pre as [|i pre IH]; intros done Hpre Hn a k b E.
+  - cbn [app] in E. destruct a as [|j a]; cbn [app] in E.
+    + injection E as <- _. rewrite !app_nil_r in *. exact Hn.
+    + injection E as <- E. destruct (Hrest a k b E) as [K|[K|K]]; auto.
+      right. right. apply in_or_app. right. now right.
+  - destruct a as [|j a]; cbn [app] in E.
+    + injection E as E _. exfalso. apply (Hpre k). now left.
+    + injection E as <- E.
+      destruct (IH (done ++ [i]) (fun m Hm => Hpre m (or_intror Hm))) with (a := a) (k := k) (b := b) as [K|[K|K]]; auto.
+      * rewrite <- app_assoc. exact Hn.
+      * right. right. now rewrite <- app_assoc in K.
+Qed.
+
+Lemma vdec_ok_insert fs pre n rest : vdec_ok fs rest -> (forall k, ~ In (VDecide k) pre) ->
+  (vs_m (f_vs fs) <> Some n \/ ~ In n (ids (f_md fs)) \/ In (VUnlinkFrag n) pre) ->
+  vdec_ok fs (pre ++ VDecide n :: rest).
+Proof. intros H1 H2 H3 a k b E. exact (vdec_ok_insert_gen fs n rest H1 pre [] H2 H3 a k b E). Qed.
+
 Lemma no_dec_unlinks l n : ~ In (VDecide n) (map VUnlinkTrash l).
 Proof. rewrite in_map_iff. intros [t [H _]]. discriminate. Qed.
 
@@ -232,7 +235,7 @@ Proof.
     change ([md_live d] ++ [[rollup (frag_state (md_live d))]]) with ([md_live d] ++ [[rollup (frag_state (md_live d))]]).
     rewrite app_assoc. apply frags_ok_snoc. fold (all_frags d).
     destruct (all_frags d) eqn:E; [unfold all_frags in E; destruct (map snd (md_frags d)); discriminate|].
-    rewrite <- E. split; [assumption|]. exists []. unfold all_frags. now rewrite frags_last_snoc.
+    split; [assumption|]. exists []. rewrite <- E. unfold all_frags. now rewrite frags_last_snoc.
   - discriminate.
   - unfold ids. cbn [md_frags]. rewrite map_app. cbn [map fst]. apply sorted_lt_snoc; [assumption|].
     intros y Hy. apply in_map_iff in Hy. destruct Hy as [p [<- Hp]]. pose proof (max_id_ge _ _ Hp). subst next. lia.
@@ -243,7 +246,7 @@ Proof.
     pose proof (H7 vp Hv n Hn). cbn [fst] in Hlt. subst next. lia.
   - intros vp Hv n Hn. rewrite Hmax. pose proof (H7 vp Hv n Hn). subst next. lia.
   - intros vp Hv a n b E. destruct (H8 vp Hv a n b E) as [K|[K|K]]; [left; exact K| |right; right; exact K].
-    right. left. unfold ids. cbn [md_frags]. rewrite map_app, in_app_iff. cbn [map fst In].
+    right. left. unfold ids. cbn [set_md f_md md_frags]. rewrite map_app, in_app_iff. cbn [map fst In].
     intros [K1|[K1|[]]]; [contradiction|].
     assert (Hn : In n (vids (vp_pc vp))).
     { rewrite E, vids_app. apply in_or_app. right. cbn. now left. }
@@ -305,3 +308,619 @@ Proof.
     + reflexivity.
     + cbn zeta in *. rewrite El in *. split; [exact K1|split; [now rewrite K2|exact K3]].
 Qed.
+
+(* ---------------------------------------------------------------- the verifier's steps *)
+Lemma sorted_le_head n l : StronglySorted N.le (n :: l) -> forall m, In m l -> n <= m.
+Proof. intros H. inversion H as [|? ? _ Hall]; subst. now rewrite Forall_forall in Hall. Qed.
+
+Lemma sorted_le_tail n l : StronglySorted N.le (n :: l) -> StronglySorted N.le l.
+Proof. intros H. now inversion H. Qed.
+
+Lemma sorted_le_dup n l : StronglySorted N.le (n :: l) -> StronglySorted N.le (n :: n :: l).
+Proof.
+  intros H. constructor; [assumption|]. constructor; [lia|]. inversion H; assumption.
+Qed.
+
+Lemma MdInv_empty_pc fs g v : MdInv fs g v -> MdInv fs g (Some (mkVp [])).
+Proof.
+  intros [H1 H2 H3 H4 H5 H6 H7 H8]. split; auto; intros vp [= <-]; cbn [vp_pc vids flat_map].
+  - constructor.
+  - intros n m [].
+  - intros n [].
+  - apply vdec_ok_nil.
+Qed.
+
+(* the verifier unlinks fragment n: n is at most the lowest number on disk *)
+Lemma MdInv_unlink_frag fs g n rest :
+  MdInv fs g (Some (mkVp (VUnlinkFrag n :: rest))) ->
+  MdInv (set_md fs (frag_remove n (f_md fs))) g (Some (mkVp rest)) /\
+  max_id (md_frags (frag_remove n (f_md fs))) = max_id (md_frags (f_md fs)).
+Proof.
+  intros [H1 H2 H3 H4 H5 H6 H7 H8].
+  specialize (H5 _ eq_refl). specialize (H6 _ eq_refl). specialize (H7 _ eq_refl). specialize (H8 _ eq_refl).
+  cbn [vp_pc] in *. change (vids (VUnlinkFrag n :: rest)) with (n :: vids rest) in *.
+  assert (Hlow : forall m, In m (ids (f_md fs)) -> n <= m).
+  { intros m Hm. destruct (N.le_gt_cases n m) as [|Hlt]; [assumption|].
+    destruct (H6 n m (or_introl eq_refl) Hm Hlt) as [<-|Hin]; [lia|].
+    exact (sorted_le_head _ _ H5 m Hin). }
+  assert (Hmaxn : n < max_id (md_frags (f_md fs))) by (apply H7; now left).
+  pose proof (adel_low n (md_frags (f_md fs)) H3 Hlow) as Hadel.
+  assert (Hmax : max_id (adel n (md_frags (f_md fs))) = max_id (md_frags (f_md fs))) by now apply max_id_adel.
+  split; [|exact Hmax].
+  split; cbn [set_md f_md f_vs frag_remove md_frags md_live].
+  - unfold all_frags in *. unfold frag_remove. cbn [md_frags md_live]. rewrite Hadel.
+    destruct (md_frags (f_md fs)) as [|[k f0] r]; [assumption|].
+    destruct (N.eqb_spec n k); [|assumption]. cbn [map snd app] in H1.
+    destruct (map snd r ++ [md_live (f_md fs)]) as [|f1 r'] eqn:E; [exact I|].
+    cbn [frags_ok chained snd] in *. tauto.
+  - intros K. specialize (H2 K). now rewrite H2.
+  - unfold ids. cbn [md_frags]. now apply adel_sorted.
+  - intros fr Hfr. apply adel_In in Hfr. apply H4. tauto.
+  - intros vp [= <-]. cbn [vp_pc]. exact (sorted_le_tail _ _ H5).
+  - intros vp [= <-] k m Hk Hm Hlt. cbn [vp_pc] in *. unfold ids in Hm. cbn [md_frags] in Hm.
+    apply adel_ids_In in Hm. destruct Hm as [Hm Hne].
+    destruct (H6 k m (or_intror Hk) Hm Hlt) as [E|Hin]; [congruence|assumption].
+  - intros vp [= <-] k Hk. cbn [vp_pc] in *. rewrite Hmax. apply H7. now right.
+  - intros vp [= <-] a k b E. cbn [vp_pc] in *.
+    destruct (H8 (VUnlinkFrag n :: a) k b) as [K|[K|K]]; [now rewrite E|left; exact K| |].
+    + right. left. unfold ids, frag_remove. cbn [set_md f_md md_frags]. rewrite adel_ids_In. intros [K1 _]. contradiction.
+    + destruct K as [K|K]; [|right; right; exact K]. injection K as ->.
+      right. left. unfold ids, frag_remove. cbn [set_md f_md md_frags]. rewrite adel_ids_In. tauto.
+Qed.
+
+Lemma vexec_inv fs g i rest ok fs' pc' :
+  MdInv fs g (Some (mkVp (i :: rest))) -> vexec i ok rest fs = (fs', pc') ->
+  MdInv fs' g (Some (mkVp pc')) /\
+  md_live (f_md fs') = md_live (f_md fs) /\
+  max_id (md_frags (f_md fs')) = max_id (md_frags (f_md fs)) /\
+  f_sst fs' = f_sst fs /\ f_logs fs' = f_logs fs.
+Proof.
+  intros HI E.
+  assert (Hfr : forall fs2 pc2, f_md fs2 = f_md fs -> vs_m (f_vs fs2) = vs_m (f_vs fs) ->
+            MdInv fs g (Some (mkVp pc2)) -> MdInv fs2 g (Some (mkVp pc2))).
+  { intros fs2 pc2 E1 E2. now apply MdInv_frame. }
+  pose proof HI as [H1 H2 H3 H4 H5 H6 H7 H8].
+  specialize (H5 _ eq_refl). specialize (H6 _ eq_refl). specialize (H7 _ eq_refl). specialize (H8 _ eq_refl).
+  cbn [vp_pc] in *.
+  destruct i as [n|n|t| |n]; cbn [vexec] in E.
+  - (* VStartEntry *)
+    change (vids (VStartEntry n :: rest)) with (n :: vids rest) in *.
+    destruct (vs_m (f_vs fs)) as [old|] eqn:Em.
+    + destruct (N.ltb_spec n old).
+      * injection E as <- <-. (split; [|split; [reflexivity|split; [reflexivity|split; reflexivity]]]). now apply (MdInv_empty_pc _ _ _ HI).
+      * injection E as <- <-. (split; [|split; [reflexivity|split; [reflexivity|split; reflexivity]]]).
+        match goal with |- MdInv _ _ (Some (mkVp ?l)) => remember l as pcn eqn:Epc end.
+        assert (Hv : vids pcn = (if old =? n then [n] else []) ++ n :: vids rest).
+        { subst pcn. rewrite !vids_app, vids_unlinks. destruct (old =? n); reflexivity. }
+        split; auto; intros vp [= <-]; cbn [vp_pc]; rewrite ?Hv.
+        -- destruct (old =? n); [now apply sorted_le_dup|assumption].
+        -- intros k m Hk Hm Hlt. destruct (old =? n); cbn [app] in *.
+           ++ right. apply (H6 k m); [destruct Hk as [<-|Hk]; [now left|assumption]|assumption|assumption].
+           ++ now apply (H6 k m).
+        -- intros k Hk. apply H7. destruct (old =? n); cbn [app] in Hk; [destruct Hk as [<-|Hk]; [now left|assumption]|assumption].
+        -- assert (Epc2 : pcn = ((if old =? n then [VUnlinkFrag n] else []) ++ map VUnlinkTrash (vs_strs (f_vs fs)) ++ [VClear]) ++ VDecide n :: rest)
+             by (subst pcn; rewrite <- !app_assoc; reflexivity).
+           rewrite Epc2.
+           apply vdec_ok_insert.
+           ++ apply (vdec_ok_tail fs (VStartEntry n)); [assumption|discriminate].
+           ++ intros k Hk. apply in_app_iff in Hk. destruct Hk as [Hk|Hk].
+              ** destruct (old =? n); [destruct Hk as [Hk|[]]; discriminate|destruct Hk].
+              ** apply in_app_iff in Hk. destruct Hk as [Hk|[Hk|[]]]; [exact (no_dec_unlinks _ _ Hk)|discriminate].
+           ++ destruct (N.eqb_spec old n) as [->|Hne].
+              ** right. right. now left.
+              ** left. rewrite Em. congruence.
+    + injection E as <- <-. (split; [|split; [reflexivity|split; [reflexivity|split; reflexivity]]]).
+      split; auto; intros vp [= <-]; cbn [vp_pc]; change (vids (VDecide n :: rest)) with (n :: vids rest); auto.
+      apply vdec_ok_cons_dec; [left; rewrite Em; discriminate|].
+      apply (vdec_ok_tail fs (VStartEntry n)); [assumption|discriminate].
+  - (* VUnlinkFrag *)
+    injection E as <- <-. destruct (MdInv_unlink_frag fs g n rest HI) as [K1 K2].
+    split; [exact K1|]. split; [reflexivity|]. split; [exact K2|]. split; reflexivity.
+  - (* VUnlinkTrash *)
+    assert (HI' : MdInv fs g (Some (mkVp rest))).
+    { split; auto; intros vp [= <-]; cbn [vp_pc]; auto.
+      apply (vdec_ok_tail fs (VUnlinkTrash t)); [assumption|discriminate]. }
+    destruct t as [x|k]; injection E as <- <-; (split; [|split; [reflexivity|split; [reflexivity|split; reflexivity]]]); now apply Hfr.
+  - (* VClear *)
+    injection E as <- <-. (split; [|split; [reflexivity|split; [reflexivity|split; reflexivity]]]). apply Hfr; [reflexivity|reflexivity|].
+    split; auto; intros vp [= <-]; cbn [vp_pc]; auto.
+    apply (vdec_ok_tail fs VClear); [assumption|discriminate].
+  - (* VDecide *)
+    change (vids (VDecide n :: rest)) with (n :: vids rest) in *.
+    assert (Htail : vdec_ok fs rest) by (apply (vdec_ok_tail fs (VDecide n)); [assumption|discriminate]).
+    destruct (match vs_m (f_vs fs) with Some old => old =? n | None => false end) eqn:Ec.
+    + (* already processed *)
+      injection E as <- <-. (split; [|split; [reflexivity|split; [reflexivity|split; reflexivity]]]).
+      assert (Hnot : ~ In n (ids (f_md fs))).
+      { destruct (H8 [] n rest eq_refl) as [K|[K|[]]]; [|assumption].
+        destruct (vs_m (f_vs fs)) as [old|]; [|discriminate]. apply N.eqb_eq in Ec. congruence. }
+      split; auto; intros vp [= <-]; cbn [vp_pc].
+      * exact (sorted_le_tail _ _ H5).
+      * intros k m Hk Hm Hlt. destruct (H6 k m (or_intror Hk) Hm Hlt) as [<-|Hin]; [contradiction|assumption].
+      * intros k Hk. apply H7. now right.
+      * exact Htail.
+    + destruct (is_nil (vs_strs (f_vs fs))); cbn [negb] in E;
+        [|injection E as <- <-; (split; [|split; [reflexivity|split; [reflexivity|split; reflexivity]]]); now apply (MdInv_empty_pc _ _ _ HI)].
+      destruct (frag_find n (f_md fs)) as [f|];
+        [|injection E as <- <-; (split; [|split; [reflexivity|split; [reflexivity|split; reflexivity]]]); now apply (MdInv_empty_pc _ _ _ HI)].
+      destruct ok; cbn [negb] in E;
+        [|injection E as <- <-; (split; [|split; [reflexivity|split; [reflexivity|split; reflexivity]]]); now apply (MdInv_empty_pc _ _ _ HI)].
+      destruct (forallb (tent_present fs) (intent n f (f_md fs)));
+        [|injection E as <- <-; (split; [|split; [reflexivity|split; [reflexivity|split; reflexivity]]]); now apply (MdInv_empty_pc _ _ _ HI)].
+      injection E as <- <-. (split; [|split; [reflexivity|split; [reflexivity|split; reflexivity]]]).
+      set (strs := tent_sort (intent n f (f_md fs))).
+      match goal with |- MdInv _ _ (Some (mkVp ?l)) => remember l as pcn eqn:Epc end.
+      assert (Hv : vids pcn = n :: vids rest).
+      { subst pcn. cbn [app]. change (n :: vids (map VUnlinkTrash strs ++ VClear :: rest) = n :: vids rest).
+        f_equal. rewrite vids_app, vids_unlinks. reflexivity. }
+      split; cbn [set_vs f_md f_vs]; auto; intros vp [= <-]; cbn [vp_pc]; rewrite ?Hv; auto.
+      subst pcn. intros a k b Ek. cbn [app] in Ek. destruct a as [|j a]; [discriminate|]. injection Ek as <- Ek.
+      assert (Hk : vdec_ok fs (map VUnlinkTrash strs ++ [VClear] ++ rest)).
+      { apply vdec_ok_pre; [|apply no_dec_unlinks]. apply vdec_ok_pre; [assumption|intros m [K|[]]; discriminate]. }
+      destruct (N.eq_dec k n) as [->|Hne]; [right; right; now left|].
+      destruct (Hk a k b Ek) as [K|[K|K]].
+      * left. cbn [set_vs f_vs vs_m]. congruence.
+      * right. left. exact K.
+      * right. right. now right.
+Qed.
+
+Lemma vids_start l : vids (map VStartEntry l) = l.
+Proof. induction l as [|n l IH]; [reflexivity|]. cbn. now f_equal. Qed.
+
+Lemma MdInv_begin fs g : MdInv fs g None -> MdInv fs g (Some (mkVp (map VStartEntry (v_entries (f_md fs))))).
+Proof.
+  intros [H1 H2 H3 H4 H5 H6 H7 H8]. split; auto; intros vp [= <-]; cbn [vp_pc]; rewrite ?vids_start; unfold v_entries.
+  - now apply removelast_sorted.
+  - intros n m Hn Hm Hlt. now apply (removelast_low _ H3 n m).
+  - intros n Hn. destruct (removelast_In_lt _ H3 n Hn) as [K1 K2]. now apply max_id_lt_last.
+  - intros a n b E. exfalso. assert (K : In (VDecide n) (map VStartEntry (removelast (map fst (md_frags (f_md fs)))))).
+    { rewrite E. apply in_or_app. right. now left. }
+    apply in_map_iff in K. destruct K as [x [K _]]. discriminate.
+Qed.
+
+(* ---------------------------------------------------------------- thread bookkeeping *)
+Lemma pc_get_set_same t l p : pc_get t (pc_set t l p) = l.
+Proof.
+  unfold pc_get, pc_set, set_pcs. cbn [p_pcs]. destruct l as [|i l].
+  - now rewrite aget_adel_same.
+  - now rewrite aget_aset_same.
+Qed.
+
+Lemma pc_get_set_other t t' l p : t' <> t -> pc_get t' (pc_set t l p) = pc_get t' p.
+Proof.
+  intros H. unfold pc_get, pc_set, set_pcs. cbn [p_pcs]. destruct l as [|i l].
+  - now rewrite aget_adel_other.
+  - now rewrite aget_aset_other.
+Qed.
+
+Definition is_pushed (i : instr) : Prop := match i with IRelease _ | IOrphan _ => True | _ => False end.
+
+Lemma pushed_releases l : Forall is_pushed (map IRelease l).
+Proof. induction l; constructor; [exact I|assumption]. Qed.
+Lemma pushed_orphans l : Forall is_pushed (map IOrphan l).
+Proof. induction l; constructor; [exact I|assumption]. Qed.
+
+(* what unref_drop does to the fields this file cares about *)
+Lemma unref_drop_pcs t i p :
+  (forall t', t' <> t -> pc_get t' (unref_drop t i p) = pc_get t' p) /\
+  (exists pushed, Forall is_pushed pushed /\ pc_get t (unref_drop t i p) = pushed ++ pc_get t p) /\
+  p_ms (unref_drop t i p) = p_ms p /\ p_next (unref_drop t i p) = p_next p /\
+  p_ready (unref_drop t i p) = p_ready p.
+Proof.
+  unfold unref_drop. destruct (Nat.eqb (strong_of p i) 1).
+  - split; [|split; [|repeat split]].
+    + intros t' Ht. now rewrite pc_get_set_other.
+    + exists (map IRelease (names_of p i)). split; [apply pushed_releases|]. now rewrite pc_get_set_same.
+  - split; [|split; [|repeat split]].
+    + reflexivity.
+    + exists []. split; [constructor|reflexivity].
+Qed.
+
+Definition md_instr (i : instr) : bool :=
+  match i with ICommit (Some _) _ | IManiOpen | IInitEdit | IApplyIfAbsent _ _ => true | _ => false end.
+
+Record ExecFacts (t : N) (i : instr) (s : sys) (p1 : proc) (s' : sys) (op' : option proc) : Prop := mkEF {
+  ef_v : s_v s' = s_v s;
+  ef_md : MdInv (s_fs s) (s_frags s) (s_v s) -> (md_instr i = true -> i = IManiOpen \/ Hd (s_fs s) p1) ->
+          MdInv (s_fs s') (s_frags s') (s_v s');
+  ef_hd : forall p', op' = Some p' -> MdInv (s_fs s) (s_frags s) (s_v s) ->
+          (i = IManiOpen \/ Hd (s_fs s) p1) -> Hd (s_fs s') p';
+  ef_other : forall p' t', op' = Some p' -> t' <> t -> pc_get t' p' = pc_get t' p1;
+  ef_self : forall p', op' = Some p' ->
+            pc_get t p' = [] \/ exists pushed, Forall is_pushed pushed /\ pc_get t p' = pushed ++ pc_get t p1;
+  ef_ready : forall p', op' = Some p' ->
+             p_ready p' = match i with INewLog _ _ => true | _ => p_ready p1 end;
+  ef_self0 : match i with
+             | INewLog _ _ => forall p', op' = Some p' -> pc_get t p' = pc_get t p1
+             | _ => True
+             end
+}.
+
+Lemma Hd_frame fs fs' p p' :
+  f_md fs' = f_md fs -> p_ms p' = p_ms p -> p_next p' = p_next p -> Hd fs p -> Hd fs' p'.
+Proof. unfold Hd. intros -> -> ->. tauto. Qed.
+
+Ltac ef_simple :=
+  split; cbn [s_v s_fs s_frags];
+  [ reflexivity
+  | intros HI _; try exact HI; try (eapply MdInv_frame; [| |exact HI]; reflexivity)
+  | intros p' [= <-] HI [Habs|Hh]; [discriminate Habs|]; try exact Hh; try (eapply Hd_frame; [| | |exact Hh]; reflexivity)
+  | intros p' t' [= <-] Ht; cbn [pc_get p_pcs set_refs set_vers set_handles set_mani set_kvs]; try reflexivity
+  | intros p' [= <-]; right; exists []; split; [constructor|]; cbn [app pc_get p_pcs set_refs set_vers set_handles set_mani set_kvs]; try reflexivity
+  | intros p' [= <-]; cbn [p_ready set_refs set_vers set_handles set_mani set_kvs]; try reflexivity
+  | try exact I; try (intros p' [= <-]; reflexivity) ].
+
+Lemma store_apply_facts s p e roll s1 p1 :
+  store_apply s p e roll = (s1, p1) ->
+  s_v s1 = s_v s /\ p_pcs p1 = p_pcs p /\ p_ready p1 = p_ready p /\
+  (MdInv (s_fs s) (s_frags s) (s_v s) -> Hd (s_fs s) p ->
+   MdInv (s_fs s1) (s_frags s1) (s_v s1) /\ Hd (s_fs s1) p1).
+Proof.
+  unfold store_apply. destruct (md_apply (f_md (s_fs s)) (p_ms p) (p_next p) e roll) as [[[d ms] next] r] eqn:E.
+  intros [= <- <-]. cbn [s_v s_fs s_frags p_pcs p_ready set_mani].
+  split; [reflexivity|]. split; [reflexivity|]. split; [reflexivity|]. intros H H0.
+  destruct (md_apply_inv _ _ _ _ _ _ H H0 _ _ _ _ E) as [K0 [K1 K2]].
+  split; [exact K0|]. split; cbn [p_ms p_next set_mani set_md f_md]; assumption.
+Qed.
+
+Lemma pc_get_eq t a b : p_pcs a = p_pcs b -> pc_get t a = pc_get t b.
+Proof. unfold pc_get. now intros ->. Qed.
+
+Lemma exec_facts t i s p1 s' op' : exec t i s p1 = (s', op') -> ExecFacts t i s p1 s' op'.
+Proof.
+  destruct i as [x|x|oe roll|x|h|h|n| | |x|x roll| | |x|rec tm]; cbn [exec]; intros E.
+  - (* ILinkExcl *)
+    destruct (mem x (f_sst (s_fs s))); injection E as <- <-.
+    + split; cbn [s_v s_fs s_frags]; [reflexivity|intros HI _; exact HI| | | | |exact I].
+      * intros p' [= <-] HI [Habs|Hh]; [discriminate|]. exact Hh.
+      * intros p' t' [= <-] Ht. now apply pc_get_set_other.
+      * intros p' [= <-]. left. apply pc_get_set_same.
+      * intros p' [= <-]. reflexivity.
+    + ef_simple.
+  - injection E as <- <-. ef_simple.
+  - (* ICommit *)
+    destruct oe as [e|].
+    + destruct (store_apply s p1 e roll) as [s1 p2] eqn:Es.
+      destruct (store_apply_facts _ _ _ _ _ _ Es) as [F1 [F2 [F3 F4]]].
+      injection E as <- <-.
+      match goal with |- ExecFacts _ _ _ _ _ (Some (unref_drop ?t ?o ?q)) => destruct (unref_drop_pcs t o q) as [U1 [[pushed [U2 U3]] [U4 [U5 U6]]]] end.
+      split; cbn [s_v s_fs s_frags].
+      * exact F1.
+      * intros HI Hh. destruct (Hh eq_refl) as [Habs|Hh']; [discriminate|]. now apply F4.
+      * intros p' [= <-] HI [Habs|Hh]; [discriminate|]. destruct (F4 HI Hh) as [_ [K1 K2]].
+        split; [rewrite U4|rewrite U5]; cbn [p_ms p_next set_refs set_vers]; assumption.
+      * intros p' t' [= <-] Ht. rewrite (U1 t' Ht). apply pc_get_eq. cbn [p_pcs set_refs set_vers]. exact F2.
+      * intros p' [= <-]. right. exists pushed. split; [assumption|]. rewrite U3. f_equal. apply pc_get_eq. cbn [p_pcs set_refs set_vers]. exact F2.
+      * intros p' [= <-]. rewrite U6. cbn [p_ready set_refs set_vers]. exact F3.
+      * exact I.
+    + injection E as <- <-.
+      match goal with |- ExecFacts _ _ _ _ _ (Some (unref_drop ?t ?o ?q)) => destruct (unref_drop_pcs t o q) as [U1 [[pushed [U2 U3]] [U4 [U5 U6]]]] end.
+      split; cbn [s_v s_fs s_frags].
+      * reflexivity.
+      * intros HI _. exact HI.
+      * intros p' [= <-] HI [Habs|Hh]; [discriminate|]. destruct Hh as [K1 K2].
+        split; [rewrite U4|rewrite U5]; cbn [p_ms p_next set_refs set_vers]; assumption.
+      * intros p' t' [= <-] Ht. rewrite (U1 t' Ht). reflexivity.
+      * intros p' [= <-]. right. exists pushed. split; [assumption|]. rewrite U3. reflexivity.
+      * intros p' [= <-]. rewrite U6. reflexivity.
+      * exact I.
+  - (* IRelease *)
+    destruct (rc_dec x (p_refs p1)) as [r last]. injection E as <- <-. destruct last; [unfold to_trash; destruct (mem x (f_sst (s_fs s)))|]; ef_simple.
+  - (* ITake *)
+    destruct (aget h (p_snaps p1)); injection E as <- <-; ef_simple.
+  - (* IDropSnap *)
+    destruct (aget h (p_snaps p1)) as [v|]; injection E as <- <-; [|ef_simple].
+    match goal with |- ExecFacts _ _ _ _ _ (Some (unref_drop ?t ?o ?q)) => destruct (unref_drop_pcs t o q) as [U1 [[pushed [U2 U3]] [U4 [U5 U6]]]] end.
+    split; cbn [s_v s_fs s_frags].
+    + reflexivity.
+    + intros HI _. exact HI.
+    + intros p' [= <-] HI [Habs|Hh]; [discriminate|]. destruct Hh as [K1 K2].
+      split; [rewrite U4|rewrite U5]; cbn [p_ms p_next set_handles]; assumption.
+    + intros p' t' [= <-] Ht. rewrite (U1 t' Ht). reflexivity.
+    + intros p' [= <-]. right. exists pushed. split; [assumption|]. rewrite U3. reflexivity.
+    + intros p' [= <-]. rewrite U6. reflexivity.
+    + exact I.
+  - (* IRenameLog *)
+    destruct (log_find n (f_logs (s_fs s))); injection E as <- <-; ef_simple.
+  - (* IManiOpen *)
+    destruct (md_open (f_md (s_fs s))) as [[[d ms] next] r] eqn:Eo. injection E as <- <-.
+    split; cbn [s_v s_fs s_frags].
+    + reflexivity.
+    + intros HI _. apply (md_open_inv _ _ _ HI _ _ _ _ Eo).
+    + intros p' [= <-] HI _. destruct (md_open_inv _ _ _ HI _ _ _ _ Eo) as [_ [K1 K2]].
+      split; cbn [p_ms p_next set_mani set_md f_md]; assumption.
+    + intros p' t' [= <-] Ht. reflexivity.
+    + intros p' [= <-]. right. exists []. split; [constructor|reflexivity].
+    + intros p' [= <-]. reflexivity.
+    + exact I.
+  - (* IInitEdit *)
+    destruct (is_nil (md_live (f_md (s_fs s)))).
+    + destruct (store_apply s p1 (mkEdit [] [] None) false) as [s1 p2] eqn:Es.
+      destruct (store_apply_facts _ _ _ _ _ _ Es) as [F1 [F2 [F3 F4]]]. injection E as <- <-.
+      split.
+      * exact F1.
+      * intros HI Hh. destruct (Hh eq_refl) as [Habs|Hh']; [discriminate|]. now apply F4.
+      * intros p' [= <-] HI [Habs|Hh]; [discriminate|]. now apply F4.
+      * intros p' t' [= <-] Ht. apply pc_get_eq. exact F2.
+      * intros p' [= <-]. right. exists []. split; [constructor|]. cbn [app]. apply pc_get_eq. exact F2.
+      * intros p' [= <-]. exact F3.
+      * exact I.
+    + injection E as <- <-. ef_simple.
+  - (* ILinkIfAbsent *)
+    destruct (mem x (f_sst (s_fs s))); injection E as <- <-; ef_simple.
+  - (* IApplyIfAbsent *)
+    destruct (mem x (ms_strs (p_ms p1))).
+    + injection E as <- <-. ef_simple.
+    + destruct (store_apply s p1 (mkEdit [] [x] None) roll) as [s1 p2] eqn:Es.
+      destruct (store_apply_facts _ _ _ _ _ _ Es) as [F1 [F2 [F3 F4]]]. injection E as <- <-.
+      split.
+      * exact F1.
+      * intros HI Hh. destruct (Hh eq_refl) as [Habs|Hh']; [discriminate|]. now apply F4.
+      * intros p' [= <-] HI [Habs|Hh]; [discriminate|]. now apply F4.
+      * intros p' t' [= <-] Ht. apply pc_get_eq. exact F2.
+      * intros p' [= <-]. right. exists []. split; [constructor|]. cbn [app]. apply pc_get_eq. exact F2.
+      * intros p' [= <-]. exact F3.
+      * exact I.
+  - (* IFromManifest *)
+    destruct (forallb (fun x => mem x (f_sst (s_fs s))) (ms_strs (p_ms p1))); injection E as <- <-; [ef_simple|].
+    split; cbn [s_v s_fs s_frags]; [reflexivity|intros HI _; exact HI| | | | |exact I]; intros p' H; discriminate.
+  - (* IOrphans *)
+    injection E as <- <-. split; cbn [s_v s_fs s_frags].
+    + reflexivity.
+    + intros HI _. exact HI.
+    + intros p' [= <-] HI [Habs|Hh]; [discriminate|]. exact Hh.
+    + intros p' t' [= <-] Ht. now apply pc_get_set_other.
+    + intros p' [= <-]. right. exists (map IOrphan (orphan_scan (f_md (s_fs s)))). split; [apply pushed_orphans|apply pc_get_set_same].
+    + intros p' [= <-]. reflexivity.
+    + exact I.
+  - (* IOrphan *)
+    destruct (mem x (f_sst (s_fs s)) && negb (mem x (f_trash (s_fs s)))); injection E as <- <-; [|ef_simple].
+    unfold to_trash. destruct (mem x (f_sst (s_fs s))); ef_simple.
+  - (* INewLog *)
+    injection E as <- <-. ef_simple.
+Qed.
+
+(* ---------------------------------------------------------------- the invariant and its preservation *)
+Record PcInv (p : proc) : Prop := mkPcInv {
+  pc_open1 : ~ In IManiOpen (tl (main_pc p));
+  pc_open2 : forall a r t b, main_pc p = a ++ INewLog r t :: b -> b = [];
+  pc_ready : p_ready p = true -> main_pc p = [];
+  pc_notready : p_ready p = false -> forall t, t <> T_MAIN -> pc_get t p = []
+}.
+
+Definition InvM (s : sys) : Prop :=
+  MdInv (s_fs s) (s_frags s) (s_v s) /\
+  forall p, s_p s = Some p -> PcInv p /\ (~ In IManiOpen (main_pc p) -> Hd (s_fs s) p).
+
+Lemma instr_eq_ManiOpen (i : instr) : {i = IManiOpen} + {i <> IManiOpen}.
+Proof. destruct i; (left; reflexivity) || (right; discriminate). Qed.
+
+Lemma pushed_not i pushed : Forall is_pushed pushed -> ~ is_pushed i -> ~ In i pushed.
+Proof. intros H Hi Hin. rewrite Forall_forall in H. exact (Hi (H i Hin)). Qed.
+
+Lemma split_after_pushed pushed rest a (i : instr) b :
+  Forall is_pushed pushed -> ~ is_pushed i -> pushed ++ rest = a ++ i :: b -> exists a', rest = a' ++ i :: b.
+Proof.
+  intros Hp Hi. revert a. induction pushed as [|j pushed IH]; intros a E; cbn [app] in E.
+  - now exists a.
+  - inversion Hp as [|? ? Hj Hp']; subst. destruct a as [|k a]; cbn [app] in E.
+    + injection E as -> _. contradiction.
+    + injection E as _ E. exact (IH Hp' a E).
+Qed.
+
+Lemma in_tl {A} (x : A) l : In x (tl l) -> In x l.
+Proof. destruct l; cbn; auto. Qed.
+
+Lemma recover_prog_instrs sums rolls l i : In i (recover_prog sums rolls l) ->
+  match i with ILinkIfAbsent _ | IApplyIfAbsent _ _ | IRenameLog _ => True | _ => False end.
+Proof.
+  unfold recover_prog. destruct (aget (l_num l) sums); [destruct (l_maxts l =? 0)|]; cbn [In]; intuition (subst; exact I).
+Qed.
+
+Lemma open_prog_shape sums rolls logs rec tm :
+  let prog := [IManiOpen; IInitEdit] ++ flat_map (recover_prog sums rolls) logs ++ [IFromManifest; IOrphans; INewLog rec tm] in
+  ~ In IManiOpen (tl prog) /\ forall a r t b, prog = a ++ INewLog r t :: b -> b = [].
+Proof.
+  cbn zeta. set (mid := flat_map (recover_prog sums rolls) logs).
+  assert (Hmid : forall i, In i mid -> match i with ILinkIfAbsent _ | IApplyIfAbsent _ _ | IRenameLog _ => True | _ => False end).
+  { intros i Hi. apply in_flat_map in Hi. destruct Hi as [l [_ Hl]]. exact (recover_prog_instrs _ _ _ _ Hl). }
+  split.
+  - cbn [app tl]. intros [H|H]; [discriminate|]. apply in_app_iff in H. destruct H as [H|[H|[H|[H|[]]]]]; try discriminate.
+    exact (Hmid _ H).
+  - intros a r t b E.
+    assert (G : forall (pre : list instr) a, (forall i, In i pre -> match i with INewLog _ _ => False | _ => True end) ->
+                  pre ++ [INewLog rec tm] = a ++ INewLog r t :: b -> b = []).
+    { induction pre as [|j pre IH]; intros a0 Hpre E0; cbn [app] in E0.
+      - destruct a0 as [|k a0]; cbn [app] in E0; [now injection E0|]. injection E0 as _ E0. destruct a0; discriminate.
+      - destruct a0 as [|k a0]; cbn [app] in E0.
+        + injection E0 as -> _. exfalso. exact (Hpre _ (or_introl eq_refl)).
+        + injection E0 as _ E0. apply (IH a0); [intros i Hi; apply Hpre; now right|assumption]. }
+    apply (G ([IManiOpen; IInitEdit] ++ mid ++ [IFromManifest; IOrphans]) a).
+    + intros i Hi. cbn [app] in Hi. destruct Hi as [<-|[<-|Hi]]; [exact I|exact I|].
+      apply in_app_iff in Hi. destruct Hi as [Hi|[<-|[<-|[]]]]; [|exact I|exact I].
+      specialize (Hmid i Hi). destruct i; try exact I; contradiction.
+    + rewrite <- E. rewrite <- !app_assoc. reflexivity.
+Qed.
+
+Lemma PcInv_same_pcs p p' :
+  (forall t, pc_get t p' = pc_get t p) -> p_ready p' = p_ready p -> PcInv p -> PcInv p'.
+Proof.
+  intros Hpc Hr [H1 H2 H3 H4]. unfold main_pc in *. split; unfold main_pc; rewrite ?Hpc, ?Hr; auto.
+  intros Hf t Ht. rewrite Hpc. auto.
+Qed.
+
+(* a thread other than the opening one gets a new program once the store is open *)
+Lemma PcInv_spawn t prog p : t <> T_MAIN -> p_ready p = true -> PcInv p -> PcInv (pc_set t prog p).
+Proof.
+  intros Ht Hr [H1 H2 H3 H4]. unfold main_pc in *.
+  assert (E : pc_get T_MAIN (pc_set t prog p) = pc_get T_MAIN p) by (apply pc_get_set_other; congruence).
+  split; unfold main_pc; rewrite ?E; auto.
+  cbn [p_ready pc_set set_pcs]. intros Hf. congruence.
+Qed.
+
+Lemma T_READER_not_main r : T_READER r <> T_MAIN.
+Proof. unfold T_READER, T_MAIN. lia. Qed.
+
+Theorem InvM_step s ev : InvM s -> InvM (step s ev).
+Proof.
+  intros [HM HP]. destruct ev as [sums rolls tm|t| |x roll|ins outs roll hold| |r|r| | |ok| ]; cbn [step].
+  - (* EOpen *)
+    destruct (s_p s) as [p|] eqn:Ep; [split; [exact HM|now rewrite Ep]|].
+    match goal with |- InvM (if ?c then _ else _) => destruct c end; [|split; [exact HM|now rewrite Ep]].
+    split; cbn [s_fs s_frags s_v s_p upd_p upd_fs].
+    + eapply MdInv_frame; [| |exact HM]; reflexivity.
+    + intros p [= <-].
+      match goal with |- PcInv (pc_set _ ?pr _) /\ _ => set (prog := pr) end.
+      assert (Em : main_pc (pc_set T_MAIN prog fresh_proc) = prog) by apply pc_get_set_same.
+      destruct (open_prog_shape sums rolls
+                  (map (fun l => match aget (l_num l) sums with
+                                 | Some x => if l_maxts l =? 0 then l else mkLog (l_num l) (l_maxts l) (Some x)
+                                 | None => l end) (f_logs (s_fs s)))
+                  (max_ts (map (fun l => match aget (l_num l) sums with
+                                 | Some x => if l_maxts l =? 0 then l else mkLog (l_num l) (l_maxts l) (Some x)
+                                 | None => l end) (f_logs (s_fs s)))) tm) as [K1 K2].
+      split; [split|].
+      * rewrite Em. exact K1.
+      * rewrite Em. exact K2.
+      * cbn [p_ready pc_set set_pcs fresh_proc]. discriminate.
+      * intros _ t Ht. rewrite pc_get_set_other by assumption. reflexivity.
+      * rewrite Em. intros H. exfalso. apply H. now left.
+  - (* EStep *)
+    destruct (s_p s) as [p|] eqn:Ep; [|split; [exact HM|now rewrite Ep]].
+    destruct (pc_get t p) as [|i rest] eqn:Epc; [split; [exact HM|now rewrite Ep]|].
+    destruct (negb (p_ready p) && negb (t =? T_MAIN)) eqn:Eg; [split; [exact HM|now rewrite Ep]|].
+    destruct (HP p eq_refl) as [[P1 P2 P3 P4] PH].
+    set (p1 := pc_set t rest p).
+    destruct (exec t i s p1) as [s1 op] eqn:Ee. pose proof (exec_facts _ _ _ _ _ _ Ee) as EF.
+    assert (Hp1 : forall t', pc_get t' p1 = if t' =? t then rest else pc_get t' p).
+    { intros t'. subst p1. destruct (N.eqb_spec t' t) as [->|Hne]; [apply pc_get_set_same|now apply pc_get_set_other]. }
+    assert (Hguard : p_ready p = true \/ t = T_MAIN).
+    { destruct (p_ready p); [now left|]. right. cbn in Eg. destruct (N.eqb_spec t T_MAIN); [assumption|discriminate]. }
+    assert (Hhd : i = IManiOpen \/ Hd (s_fs s) p1).
+    { destruct (instr_eq_ManiOpen i) as [->|Hne]; [now left|]. right.
+      apply (Hd_frame (s_fs s) (s_fs s) p); try reflexivity. apply PH. unfold main_pc.
+      destruct (N.eq_dec t T_MAIN) as [->|Ht].
+      - rewrite Epc. intros [H|H]; [congruence|]. apply P1. unfold main_pc. now rewrite Epc.
+      - destruct Hguard as [Hr|Hr]; [|contradiction]. unfold main_pc in P3. rewrite (P3 Hr). intros []. }
+    split; cbn [s_fs s_frags s_v s_p upd_p].
+    + apply (ef_md _ _ _ _ _ _ EF HM). intros _. exact Hhd.
+    + intros p' [= ->].
+      assert (Hother : forall t', t' <> t -> pc_get t' p' = pc_get t' p).
+      { intros t' Ht. rewrite (ef_other _ _ _ _ _ _ EF p' t' eq_refl Ht), Hp1. destruct (N.eqb_spec t' t); [contradiction|reflexivity]. }
+      assert (Hself : pc_get t p' = [] \/ exists pushed, Forall is_pushed pushed /\ pc_get t p' = pushed ++ rest).
+      { destruct (ef_self _ _ _ _ _ _ EF p' eq_refl) as [H|[pushed [H1 H2]]]; [now left|right].
+        exists pushed. split; [assumption|]. rewrite H2, Hp1, N.eqb_refl. reflexivity. }
+      assert (Hready : p_ready p' = match i with INewLog _ _ => true | _ => p_ready p end).
+      { rewrite (ef_ready _ _ _ _ _ _ EF p' eq_refl). subst p1. reflexivity. }
+      split; [split|].
+      * (* IManiOpen at most at the head *)
+        unfold main_pc. destruct (N.eq_dec t T_MAIN) as [->|Ht].
+        -- destruct Hself as [->|[pushed [H1 ->]]]; [intros []|]. intros H. apply in_tl in H. apply in_app_iff in H.
+           destruct H as [H|H]; [exact (pushed_not IManiOpen pushed H1 (fun K : is_pushed IManiOpen => K) H)|].
+           apply P1. unfold main_pc. now rewrite Epc.
+        -- rewrite Hother by congruence. exact P1.
+      * (* INewLog only at the end *)
+        unfold main_pc. destruct (N.eq_dec t T_MAIN) as [->|Ht].
+        -- intros a r0 t0 b E. destruct Hself as [K|[pushed [H1 K]]]; rewrite K in E; [destruct a; discriminate|].
+           destruct (split_after_pushed pushed rest a (INewLog r0 t0) b H1 (fun K : is_pushed (INewLog r0 t0) => K) E) as [a' E'].
+           apply (P2 (i :: a') r0 t0 b). unfold main_pc. now rewrite Epc, E'.
+        -- rewrite Hother by congruence. exact P2.
+      * (* ready: the opening thread is done *)
+        unfold main_pc. intros Hr. rewrite Hready in Hr.
+        destruct (N.eq_dec t T_MAIN) as [->|Ht].
+        -- assert (Ei : exists r0 t0, i = INewLog r0 t0).
+           { destruct i; try (unfold main_pc in P3; rewrite (P3 Hr) in Epc; discriminate). eauto. }
+           destruct Ei as [r0 [t0 ->]]. pose proof (ef_self0 _ _ _ _ _ _ EF p' eq_refl) as K. cbn in K.
+           rewrite K, Hp1, N.eqb_refl. apply (P2 [] r0 t0 rest). unfold main_pc. now rewrite Epc.
+        -- rewrite Hother by congruence. destruct Hguard as [Hg|Hg]; [|contradiction]. exact (P3 Hg).
+      * (* not ready: nobody else has work *)
+        intros Hr t' Ht'. rewrite Hready in Hr.
+        assert (Hnr : p_ready p = false) by (destruct i; try assumption; discriminate).
+        destruct Hguard as [Hg|Hg]; [congruence|]. subst t. rewrite Hother by assumption. exact (P4 Hnr t' Ht').
+      * intros Hno. apply (ef_hd _ _ _ _ _ _ EF p' eq_refl HM Hhd).
+  - (* EWrite *)
+    destruct (s_p s) as [p|] eqn:Ep; [|split; [exact HM|now rewrite Ep]].
+    destruct (p_ready p) eqn:Er; [|split; [exact HM|now rewrite Ep]].
+    destruct (HP p eq_refl) as [PI PH]. split; cbn [s_fs s_frags s_v s_p upd_p upd_fs].
+    + eapply MdInv_frame; [| |exact HM]; reflexivity.
+    + intros p' [= <-]. split.
+      * apply (PcInv_same_pcs p); [reflexivity|cbn [p_ready set_kvs]; now rewrite Er|exact PI].
+      * intros Hno. apply (Hd_frame (s_fs s) _ p); try reflexivity. now apply PH.
+  - (* EFlush *)
+    destruct (s_p s) as [p|] eqn:Ep; [|split; [exact HM|now rewrite Ep]].
+    match goal with |- InvM (if ?c then _ else _) => destruct c eqn:Ec end; [|split; [exact HM|now rewrite Ep]].
+    destruct (p_ready p) eqn:Er; [|discriminate].
+    destruct (HP p eq_refl) as [PI PH]. split; cbn [s_fs s_frags s_v s_p upd_p upd_fs].
+    + eapply MdInv_frame; [| |exact HM]; reflexivity.
+    + intros p' [= <-]. split.
+      * apply PcInv_spawn; [discriminate|reflexivity|].
+        apply (PcInv_same_pcs p); [reflexivity|cbn [p_ready set_kvs]; now rewrite Er|exact PI].
+      * unfold main_pc. rewrite pc_get_set_other by discriminate. intros Hno.
+        apply (Hd_frame (s_fs s) _ p); try reflexivity. now apply PH.
+  - (* ECompact *)
+    destruct (s_p s) as [p|] eqn:Ep; [|split; [exact HM|now rewrite Ep]].
+    match goal with |- InvM (if ?c then _ else _) => destruct c eqn:Ec end; [|split; [exact HM|now rewrite Ep]].
+    destruct (p_ready p) eqn:Er; [|discriminate].
+    destruct (HP p eq_refl) as [PI PH]. split; cbn [s_fs s_frags s_v s_p upd_p upd_fs]; [exact HM|].
+    intros p' [= <-]. split.
+    + apply PcInv_spawn; [discriminate|assumption|exact PI].
+    + unfold main_pc. rewrite pc_get_set_other by discriminate. intros Hno.
+      apply (Hd_frame (s_fs s) _ p); try reflexivity. now apply PH.
+  - (* EMove *)
+    destruct (s_p s) as [p|] eqn:Ep; [|split; [exact HM|now rewrite Ep]].
+    match goal with |- InvM (if ?c then _ else _) => destruct c eqn:Ec end; [|split; [exact HM|now rewrite Ep]].
+    destruct (p_ready p) eqn:Er; [|discriminate].
+    destruct (HP p eq_refl) as [PI PH]. split; cbn [s_fs s_frags s_v s_p upd_p upd_fs]; [exact HM|].
+    intros p' [= <-]. split.
+    + apply PcInv_spawn; [discriminate|assumption|exact PI].
+    + unfold main_pc. rewrite pc_get_set_other by discriminate. intros Hno.
+      apply (Hd_frame (s_fs s) _ p); try reflexivity. now apply PH.
+  - (* ETake *)
+    destruct (s_p s) as [p|] eqn:Ep; [|split; [exact HM|now rewrite Ep]].
+    match goal with |- InvM (if ?c then _ else _) => destruct c eqn:Ec end; [|split; [exact HM|now rewrite Ep]].
+    destruct (HP p eq_refl) as [PI PH]. split; cbn [s_fs s_frags s_v s_p upd_p upd_fs]; [exact HM|].
+    cbn [exec]. destruct (aget (H_READER r) (p_snaps p)); cbn [snd]; intros p' [= <-].
+    + split; assumption.
+    + split.
+      * apply (PcInv_same_pcs p); [reflexivity|reflexivity|exact PI].
+      * intros Hno. apply (Hd_frame (s_fs s) _ p); try reflexivity. now apply PH.
+  - (* EDrop *)
+    destruct (s_p s) as [p|] eqn:Ep; [|split; [exact HM|now rewrite Ep]].
+    match goal with |- InvM (if ?c then _ else _) => destruct c eqn:Ec end; [|split; [exact HM|now rewrite Ep]].
+    destruct (p_ready p) eqn:Er; [|discriminate].
+    destruct (HP p eq_refl) as [PI PH]. split; cbn [s_fs s_frags s_v s_p upd_p upd_fs]; [exact HM|].
+    cbn [exec]. destruct (aget (H_READER r) (p_snaps p)) as [v|]; cbn [snd]; intros p' [= <-].
+    + match goal with |- PcInv (unref_drop ?t ?o ?q) /\ _ => destruct (unref_drop_pcs t o q) as [U1 [[pushed [U2 U3]] [U4 [U5 U6]]]] end.
+      pose proof (T_READER_not_main r) as Hne.
+      assert (Em : forall q, main_pc (unref_drop (T_READER r) v q) = main_pc q).
+      { intros q. destruct (unref_drop_pcs (T_READER r) v q) as [V1 _]. unfold main_pc. apply V1. congruence. }
+      split.
+      * destruct PI as [P1 P2 P3 P4]. split; rewrite ?Em; unfold main_pc in *; cbn [pc_get p_pcs set_handles]; auto.
+        rewrite U6. cbn [p_ready set_handles]. congruence.
+      * rewrite Em. intros Hno. destruct (PH Hno) as [K1 K2]. split; [rewrite U4|rewrite U5]; assumption.
+    + split; assumption.
+  - (* ECrash *)
+    split; cbn [s_fs s_frags s_v s_p upd_p]; [exact HM|discriminate].
+  - (* EVBegin *)
+    destruct (s_v s) eqn:Ev; [split; [now rewrite Ev|exact HP]|].
+    split; cbn [s_fs s_frags s_v s_p upd_v]; [|exact HP]. apply MdInv_begin. exact HM.
+  - (* EVStep *)
+    destruct (s_v s) as [[pc]|] eqn:Ev; [|split; [now rewrite Ev|exact HP]]. cbn [vp_pc].
+    destruct pc as [|i rest].
+    + split; cbn [s_fs s_frags s_v s_p upd_v]; [exact (MdInv_noverifier _ _ _ HM)|exact HP].
+    + destruct (vexec i ok rest (s_fs s)) as [fs' pc'] eqn:Ex.
+      destruct (vexec_inv _ _ _ _ _ _ _ HM Ex) as [K1 [K2 [K3 [K4 K5]]]].
+      split; cbn [s_fs s_frags s_v s_p upd_v upd_fs]; [exact K1|].
+      intros p Hp. destruct (HP p Hp) as [PI PH]. split; [exact PI|].
+      intros Hno. destruct (PH Hno) as [H1 H2]. split; [now rewrite K2|now rewrite K3].
+  - (* EVCrash *)
+    split; cbn [s_fs s_frags s_v s_p upd_v]; [exact (MdInv_noverifier _ _ _ HM)|exact HP].
+Qed.
+
+Lemma InvM_init : InvM sys0.
+Proof.
+  split; [|discriminate]. split; cbn; auto; try discriminate; try (intros _ []); try constructor.
+Qed.
+
+Theorem InvM_run evs : forall s, InvM s -> InvM (run s evs).
+Proof. induction evs as [|e evs IH]; intros s H; cbn [run]; [assumption|]. apply IH, InvM_step, H. Qed.
